@@ -16,6 +16,7 @@ pub mod c16;
 pub mod c17;
 pub mod c18;
 pub mod c19;
+pub mod c19gen;
 pub mod c20;
 
 use crate::json::J;
